@@ -21,6 +21,9 @@ From Coq Require Import Lia ZifyBool ZifyNat ZifyN.
 Ltac Zify.zify_post_hook ::= Z.div_mod_to_equations.
 
 Definition fits (b : bytes) : Prop := (8 * blen b < two64)%N.
+(* the same for a cursor type of W bits (W is regenerated from lang/properties.yaml named_types: Gen_C04, the tpl_width definitions); the instance
+   lemmas below are proved against Prims/CPrims.v, whose size_t is 64 bits: Properties/C04.c04_width_is_model_width pins W = 64 *)
+Definition wfits (W : nat) (b : bytes) : Prop := (8 * blen b < 2 ^ N.of_nat W)%N.
 
 Lemma acc_bw_bound capB lo hi : acc_ok capB (BW lo hi) = true -> (lo < hi)%nat -> (hi <= capB)%nat.
 Proof. cbn [acc_ok]. intros H Hl. apply Bool.orb_true_iff in H. destruct H as [H|H]; apply Nat.leb_le in H; lia. Qed.
